@@ -59,6 +59,10 @@ type matcherCompiler struct {
 	// All dots found during match compilation.
 	dots []token.Pos
 
+	// Position of the "..." placed in front of a statement patch to stand
+	// for the statements that precede it in a block, if one was placed.
+	implicitLead token.Pos
+
 	// Names of the metavariables compiled so far, one per occurrence.
 	metavars []string
 
